@@ -61,6 +61,11 @@ def jobs(tier):
         add('trim', dict(d=1, npm=2, sizes=sizes, cache=1))
         add('trim', dict(d=1, npm=2, sizes=sizes, unit=False))
     add('sample', dict(d=1, npm=2, sizes=[2, 2], n=1), block=1)
+    # record created by Union.compute (n_points_min = d + 1 = 2), then a split
+    for n in (2, 3, 4):
+        jobs.append(Job('harness.nautilus_steps:union_compute_rng',
+                        dict(d=1, n=n, unit=False), pkg_key='bounds',
+                        block=1, max_paths=8000))
     add('sample', dict(d=1, npm=2, sizes=[2], n=2, cache=1, unit=False))
     if thorough:
         add('split', dict(d=1, npm=2, sizes=[5, 2], cache=1), max_paths=30000)
